@@ -89,7 +89,7 @@ fn walk_dates(b: i64, lo: i64, hi: i64, acc: &mut Acc) {
     }
 }
 
-const TODS: [u64; 4] = [0, 1, 43_200_000_000_000, 86_399_999_999_999];
+const TODS: [u64; 6] = [0, 1, 21_600_000_000_001, 43_200_000_000_000, 72_000_000_000_000, 86_399_999_999_999];
 
 fn dt_pair(a: i64, ta: u64, b: i64, tb: u64, acc: &mut Acc) -> Option<(i32, i32)> {
     let (x, y): (DateTime, DateTime) = match (dt_from(a, ta), dt_from(b, tb)) {
@@ -172,8 +172,8 @@ pub fn run(ctx: &Ctx) -> i32 {
     let dwins = if ctx.thorough { vec![(yr(2019, true), yr(2021, false)), (yr(-2, true), yr(2, false))] } else { vec![(yr(2019, true) + 330, yr(2021, false) - 300), (yr(-1, true) + 300, yr(1, false) - 300)] };
     for (k, (lo, hi)) in dwins.iter().cloned().enumerate() {
         let n = (hi - lo + 1) as u64;
-        rep.sweep(&format!("DateTime: all ordered pairs inside window {} ({} days) x 4x4 times of day", k, n), n * 4, "one index per (b, time of b)", move |i, acc| {
-            walk_dts(lo + (i / 4) as i64, TODS[(i % 4) as usize], lo, hi, acc);
+        rep.sweep(&format!("DateTime: all ordered pairs inside window {} ({} days) x 6x6 times of day", k, n), n * 6, "one index per (b, time of b)", move |i, acc| {
+            walk_dts(lo + (i / 6) as i64, TODS[(i % 6) as usize], lo, hi, acc);
         });
     }
     // lattice beyond the windows
